@@ -96,3 +96,27 @@ def run_gen(ctx, rep, rules, only_par=False, only_tags=None, floors=None):
     for rule, fl in (floors or {}).items():
         rep.floor(rule, fl, 'instances over corpus + shipped programs')
     return n
+
+
+def run_tv(ctx, rep, floors=None, only_tags=None):
+    """R1-R5 over every corpus program that has a spec without unexpanded sugar"""
+    import tv_rules
+    pgs, skipped = all_programs(ctx, rep)
+    spec = load_spec(ctx)
+    n = 0
+    for pg in pgs:
+        if not pg.ours:
+            continue
+        name = pg.p.path.split('::')[0]
+        sp = spec.get(pg.crate + '::' + name)
+        if sp is None:
+            raise Broken('corpus program %s has no spec' % pg.p.path)
+        if only_tags and not (set(only_tags) & set(sp.get('tags', []))):
+            continue
+        k = tv_rules.check_program(pg, sp, rep)
+        if k:
+            rep.programs.add(pg.crate + '::' + pg.p.path)
+        n += k
+    for rule, fl in (floors or {}).items():
+        rep.floor(rule, fl, 'translation-validated rules')
+    return n
